@@ -36,13 +36,28 @@ type RefClosure struct {
 }
 
 // SelectVersion is the brute-force maximum over offered ∧ allowed.
+// RefAllowed: membership in the caller's allowed set. A finite set (an exact version, a selection, the set
+// built for an already-versioned address) contains what it lists; go-versions' Set.Has answers false for
+// 0.0.0 in every set but All, even in Only(0.0.0), so the listing is consulted for finite sets.
+func RefAllowed(allowed versions.Set, v versions.Version) bool {
+	if allowed.IsFinite() {
+		for _, l := range allowed.List() {
+			if l == v {
+				return true
+			}
+		}
+		return false
+	}
+	return allowed.Has(v)
+}
+
 func SelectVersion(offered []WVer, allowed versions.Set) (WVer, bool) {
 	var best WVer
 	var bestV versions.Version
 	found := false
 	for _, o := range offered {
 		v := versions.MustParseVersion(o.V)
-		if !allowed.Has(v) {
+		if !RefAllowed(allowed, v) {
 			continue
 		}
 		if !found || bestV.LessThan(v) {
